@@ -96,7 +96,8 @@ def main(argv):
     if what in ("sensitivity",):
         from . import sensitivity
 
-        ok &= sensitivity.run(props)
+        only = next((a.split("=", 1)[1] for a in argv if a.startswith("only=")), None)
+        ok &= sensitivity.run(props, only=only)
     print("selftest %s: %s" % (what, "OK" if ok else "FAILED"))
     return 0 if ok else 2
 
